@@ -46,6 +46,14 @@ Theorem C01_check_balance_posts_order_independent : forall f d posts r r' ps ev 
 Proof. exact check_balance_perm_posts. Qed.
 Print Assumptions C01_check_balance_posts_order_independent.
 
+(* a rejected residual is rejected in any order, the error listing the same entries *)
+Theorem C01_check_balance_error_order_independent : forall f d posts r r' e,
+  Permutation r r' -> check_balance f d posts r = Err e ->
+  exists z z', e = UnbalancedPostings z /\
+               check_balance f d posts r' = Err (UnbalancedPostings z') /\ Permutation z z'.
+Proof. exact check_balance_perm_err. Qed.
+Print Assumptions C01_check_balance_error_order_independent.
+
 (* (2) no transaction makes book-keeping panic, in any state: the unreachable!() of
    posting_price_event and the division of check_balance are not reachable *)
 Theorem C01_no_panic : forall s t, add_transaction s t <> Panic.
